@@ -14,6 +14,7 @@ import (
 	"errors"
 	"fmt"
 	"os"
+	"runtime"
 	"sort"
 	"strings"
 	"sync"
@@ -23,6 +24,7 @@ import (
 
 	"github.com/buildbarn/bb-remote-execution/pkg/filesystem/pool"
 	"github.com/buildbarn/bb-remote-execution/pkg/filesystem/virtual"
+	re_sync "github.com/buildbarn/bb-remote-execution/pkg/sync"
 	"github.com/buildbarn/bb-storage/pkg/clock"
 	"github.com/buildbarn/bb-storage/pkg/filesystem"
 	"github.com/buildbarn/bb-storage/pkg/filesystem/path"
@@ -48,10 +50,14 @@ type op struct {
 	S  uint64 `json:"s,omitempty"` // storm: seed
 	T  int    `json:"t,omitempty"` // storm: goroutines
 	R  int    `json:"r,omitempty"` // storm: calls per goroutine
+	L  []int  `json:"l,omitempty"` // pile: locks to lock
+	X  bool   `json:"x,omitempty"` // issued from a storm: kinds follow names (a,b directories; others files)
+	O  []bool `json:"o,omitempty"` // pile: answers of the scripted TryLocks
 }
 
 type history struct {
-	Ops []op `json:"ops"`
+	Pile bool `json:"pile,omitempty"` // ops are LockPile commands of one thread
+	Ops  []op `json:"ops"`
 }
 
 var names = []string{"a", "b", "c", "d", ".hidden"}
@@ -67,11 +73,11 @@ var methods = []string{
 type area struct{}
 
 func (area) Requires() string {
-	return "From VF Require Import Common.Verdict Locks.Model Locks.Corr.\nOpen Scope string_scope."
+	return "From VF Require Import Common.Verdict Locks.Model Locks.Pile Locks.Spec Locks.Corr.\nOpen Scope string_scope."
 }
 func (area) Check() string { return "check_case" }
 func (area) Rule() string {
-	return "histories of 12-40 calls (thorough: up to 120, plus concurrent storms of 4-8 goroutines x 200-600 calls with a 30 s watchdog) on a tree below a fresh in-memory root; every exported method of the directory (21 methods) with names from {a,b,c,d,.hidden}; directories are referred to by creation index, including directories that have been removed (calls on removed directories are deliberate); failing initial-contents fetchers (getContents error paths), failing file allocator and symlink factory in 10% of creations; after every call VerifLockIsFree on every directory ever created; a history stops at the first leak or hang; non-trivial = at least one error return, one call on a removed directory and one successful removal of a directory; distinct by hash of the full case term. If VERIF_LOCKS_FOCUS names methods (set by the static obligation when functions fail it), half of all calls are drawn from those methods."
+	return "histories of 12-40 calls (thorough: up to 120, plus concurrent storms of 4-8 goroutines x 1000-4000 calls with a 30 s watchdog) on a tree below a fresh in-memory root; every exported method of the directory (21 methods) with names from {a,b,c,d,.hidden}; directories are referred to by creation index, including directories that have been removed (calls on removed directories are deliberate); failing initial-contents fetchers (getContents error paths), failing file allocator and symlink factory in 10% of creations; after every call VerifLockIsFree on every directory ever created; a history stops at the first leak or hang; non-trivial = at least one error return, one call on a removed directory and one successful removal of a directory; distinct by hash of the full case term. Every fourth history instead drives one real sync.LockPile with 6-20 (thorough: up to 70) Lock(1-3 of <=5 mutexes, sometimes none)/Unlock/UnlockAll commands over TryLockers whose TryLock answers are scripted (55% success) and records every mutex call (non-trivial = at least one back-off after a failed TryLock and one recursive unlock). If VERIF_LOCKS_FOCUS names methods (set by the static obligation when functions fail it), half of all calls are drawn from those methods."
 }
 
 func focusMethods() []string {
@@ -129,7 +135,43 @@ func genOp(r *rng.R, nd int, focus []string) op {
 	return o
 }
 
+func genPile(r *rng.R, thorough bool) json.RawMessage {
+	n := 6 + r.Intn(15)
+	if thorough {
+		n = 10 + r.Intn(60)
+	}
+	nm := 2 + r.Intn(4)
+	h := history{Pile: true}
+	for i := 0; i < n; i++ {
+		var o op
+		switch x := r.Intn(100); {
+		case x < 55:
+			o.K = "plock"
+			for j, k := 0, 1+r.Intn(3); j < k; j++ {
+				o.L = append(o.L, r.Intn(nm))
+			}
+			if r.Chance(3) {
+				o.L = nil // Lock() of nothing
+			}
+			for j, k := 0, r.Intn(7); j < k; j++ {
+				o.O = append(o.O, r.Chance(55))
+			}
+		case x < 85:
+			o.K = "punlock"
+			o.N = r.Intn(nm)
+		default:
+			o.K = "punlockall"
+		}
+		h.Ops = append(h.Ops, o)
+	}
+	data, _ := json.Marshal(h)
+	return data
+}
+
 func (area) Generate(r *rng.R, thorough bool, index int) json.RawMessage {
+	if index%4 == 3 {
+		return genPile(r, thorough)
+	}
 	n := 12 + r.Intn(29)
 	if thorough {
 		n = 20 + r.Intn(101)
@@ -142,10 +184,10 @@ func (area) Generate(r *rng.R, thorough bool, index int) json.RawMessage {
 	}
 	if thorough && index%4 == 0 {
 		// a concurrent storm in the middle and one at the end
-		s := op{K: "storm", S: r.U64(), T: 4 + r.Intn(5), R: 200 + r.Intn(401)}
+		s := op{K: "storm", S: r.U64(), T: 4 + r.Intn(5), R: 1000 + r.Intn(3001)}
 		mid := len(h.Ops) / 2
 		h.Ops = append(h.Ops[:mid], append([]op{s}, h.Ops[mid:]...)...)
-		h.Ops = append(h.Ops, op{K: "storm", S: r.U64(), T: 4 + r.Intn(5), R: 200 + r.Intn(401)})
+		h.Ops = append(h.Ops, op{K: "storm", S: r.U64(), T: 4 + r.Intn(5), R: 1000 + r.Intn(3001)})
 	}
 	data, _ := json.Marshal(h)
 	return data
@@ -311,9 +353,10 @@ func (f *fetcher) FetchContents(fileReadMonitorFactory virtual.FileReadMonitorFa
 	}
 	m := map[path.Component]virtual.InitialChild{}
 	if f.depth > 0 {
-		m[path.MustNewComponent("a")] = virtual.InitialChild{}.FromLeaf(f.w.newLeaf(filesystem.FileTypeRegularFile))
+		// names a, b are directories and c is a file: the storms rely on it
+		m[path.MustNewComponent("a")] = virtual.InitialChild{}.FromDirectory(&fetcher{w: f.w, fail: true})
 		m[path.MustNewComponent("b")] = virtual.InitialChild{}.FromDirectory(&fetcher{w: f.w, depth: f.depth - 1})
-		m[path.MustNewComponent("c")] = virtual.InitialChild{}.FromDirectory(&fetcher{w: f.w, fail: true})
+		m[path.MustNewComponent("c")] = virtual.InitialChild{}.FromLeaf(f.w.newLeaf(filesystem.FileTypeRegularFile))
 	}
 	return m, nil
 }
@@ -382,7 +425,15 @@ func (w *world) run(o op) string {
 	case "CreateChildren":
 		children := map[path.Component]virtual.InitialChild{}
 		for i, k := range o.C {
-			cn := path.MustNewComponent(names[(o.N+i)%len(names)])
+			ni := (o.N + i) % len(names)
+			cn := path.MustNewComponent(names[ni])
+			if o.X {
+				if ni < 2 {
+					k = []int{0, 2, 3}[k%3]
+				} else {
+					k = 1
+				}
+			}
 			switch k % 4 {
 			case 0:
 				children[cn] = virtual.InitialChild{}.FromDirectory(&fetcher{w: w})
@@ -461,6 +512,17 @@ func (w *world) run(o op) string {
 		return stClass(d.VirtualReadDir(ctx, uint64(o.M), mask(o.A), &reporter{left: 1 + o.N}))
 	case "VirtualRename":
 		d2, _ := w.dir(o.D2)
+		if !o.X {
+			// Moving a directory into itself or its own subtree is not refused by the
+			// code (TODO in VirtualRename; recorded under C13).  The resulting cycle
+			// makes FilterChildren recurse until the process dies of stack overflow,
+			// which no harness survives: such renames are not issued.
+			if child, err := d.LookupChild(name); err == nil {
+				if x, _ := child.GetPair(); x != nil && (x == d2 || w.below(x, d2, 0)) {
+					return "skip"
+				}
+			}
+		}
 		_, _, s := d.VirtualRename(ctx, name, d2, path.MustNewComponent(names[o.N2%len(names)]))
 		return stClass(s)
 	case "VirtualRemove":
@@ -487,6 +549,23 @@ func (w *world) run(o op) string {
 		return "err"
 	}
 	return "skip"
+}
+
+// below reports whether target is a directory in the subtree of x.
+func (w *world) below(x, target virtual.PrepopulatedDirectory, depth int) bool {
+	if depth > 64 {
+		return true
+	}
+	dirs, _, err := x.LookupAllChildren()
+	if err != nil {
+		return false
+	}
+	for _, e := range dirs {
+		if e.Child == target || w.below(e.Child, target, depth+1) {
+			return true
+		}
+	}
+	return false
 }
 
 var stormMethods = []string{
@@ -525,8 +604,23 @@ func (w *world) storm(o op) bool {
 				if nd > 8 {
 					nd = 8 // stay on the oldest directories: more contention
 				}
-				c := op{K: stormMethods[r.Intn(len(stormMethods))], D: r.Intn(nd), N: r.Intn(3), D2: r.Intn(nd), N2: r.Intn(3),
-					A: r.Chance(70), B: r.Chance(70), M: r.Intn(4)}
+				c := op{K: stormMethods[r.Intn(len(stormMethods))], D: r.Intn(nd), N: r.Intn(4), D2: r.Intn(nd), N2: r.Intn(4),
+					A: r.Chance(70), B: r.Chance(70), M: r.Intn(3), X: true}
+				// Names a, b (0, 1) are only ever directories, c, d (2, 3) only ever files,
+				// and directories are only renamed within their parent: no concurrent
+				// interleaving can then move a directory below itself.
+				switch c.K {
+				case "VirtualMkdir", "CreateAndEnterPrepopulatedDirectory":
+					c.N = r.Intn(2)
+				case "VirtualOpenChild", "VirtualMknod", "VirtualLink":
+					c.N = 2 + r.Intn(2)
+				case "VirtualRename":
+					if r.Chance(35) {
+						c.D2, c.N, c.N2 = c.D, r.Intn(2), r.Intn(2)
+					} else {
+						c.N, c.N2 = 2+r.Intn(2), 2+r.Intn(2)
+					}
+				}
 				if c.K == "CreateChildren" {
 					c.C = []int{r.Intn(4), r.Intn(4)}
 				}
@@ -569,8 +663,108 @@ func call(f func() string, timeout time.Duration) (class string, result string) 
 	case s := <-done:
 		return s[0], s[1]
 	case <-time.After(timeout):
+		if os.Getenv("VERIF_LOCKS_DEBUG") != "" {
+			buf := make([]byte, 1<<20)
+			os.Stderr.Write(buf[:runtime.Stack(buf, true)])
+		}
 		return "hang", "RHung"
 	}
+}
+
+// scriptedMutex is a TryLocker whose TryLock answers come from a script and
+// which records every call made on it.
+type scriptedMutex struct {
+	id  int
+	run *pileRun
+}
+
+type pileRun struct {
+	calls  []string
+	script []bool
+	used   []bool
+}
+
+func (m *scriptedMutex) Lock() { m.run.calls = append(m.run.calls, g.App("ALock", fmt.Sprint(m.id))) }
+func (m *scriptedMutex) Unlock() {
+	m.run.calls = append(m.run.calls, g.App("AUnlock", fmt.Sprint(m.id)))
+}
+func (m *scriptedMutex) TryLock() bool {
+	b := true
+	if len(m.run.script) > 0 {
+		b, m.run.script = m.run.script[0], m.run.script[1:]
+	}
+	m.run.used = append(m.run.used, b)
+	m.run.calls = append(m.run.calls, g.App("ATryLock", fmt.Sprint(m.id), g.Bool(b)))
+	return b
+}
+
+func executePile(h history, info *hcommon.Info) string {
+	run := &pileRun{}
+	mutexes := map[int]*scriptedMutex{}
+	mu := func(i int) *scriptedMutex {
+		if i < 0 {
+			i = -i
+		}
+		i %= 8
+		if mutexes[i] == nil {
+			mutexes[i] = &scriptedMutex{id: i, run: run}
+		}
+		return mutexes[i]
+	}
+	var lp re_sync.LockPile
+	var obs []string
+	backedOff, recursive := false, false
+	for _, o := range h.Ops {
+		run.calls, run.script, run.used = nil, append([]bool(nil), o.O...), nil
+		var cmd string
+		var f func()
+		switch o.K {
+		case "plock":
+			var ls []re_sync.TryLocker
+			var ids []string
+			for _, l := range o.L {
+				ls = append(ls, mu(l))
+				ids = append(ids, fmt.Sprint(mu(l).id))
+			}
+			cmd = g.App("CLock", g.List(ids))
+			f = func() { lp.Lock(ls...) }
+		case "punlock":
+			cmd = g.App("CUnlock", fmt.Sprint(mu(o.N).id))
+			f = func() { lp.Unlock(mu(o.N)) }
+		case "punlockall":
+			cmd = "CUnlockAll"
+			f = func() { lp.UnlockAll() }
+		default:
+			continue
+		}
+		class, result := call(func() string { f(); return "ok" }, 5*time.Second)
+		info.Events++
+		info.Ops[o.K]++
+		info.Outs[o.K+":"+class]++
+		if result == "RHung" {
+			info.Outs["hang:"+o.K]++
+			obs = append(obs, g.App("mkPO", cmd, "[]", "false", g.List([]string{g.App("ALock", "99"), g.App("ALock", "99")})))
+			break
+		}
+		var oracle []string
+		for _, b := range o.O {
+			oracle = append(oracle, g.Bool(b))
+		}
+		for _, c := range run.calls {
+			if strings.HasPrefix(c, "(ATryLock") && strings.HasSuffix(c, "false)") {
+				backedOff = true
+			}
+		}
+		if o.K == "punlock" && class == "ok" && len(run.calls) == 0 {
+			recursive = true
+		}
+		if len(lp) > info.Extra["max_pile"] {
+			info.Extra["max_pile"] = len(lp)
+		}
+		obs = append(obs, g.App("mkPO", cmd, g.List(oracle), g.Bool(result == "RPanicked"), g.List(run.calls)))
+	}
+	info.Nontrivial = backedOff && recursive
+	return g.App("mkPileCase", g.List(obs))
 }
 
 func (area) Execute(raw json.RawMessage) (term string, info *hcommon.Info, err error) {
@@ -579,6 +773,9 @@ func (area) Execute(raw json.RawMessage) (term string, info *hcommon.Info, err e
 		return "", nil, err
 	}
 	info = hcommon.NewInfo()
+	if h.Pile {
+		return executePile(h, info), info, nil
+	}
 	w := &world{}
 	w.root = virtual.NewInMemoryPrepopulatedDirectory(
 		fileAllocator{w}, symlinkFactory{w}, errorLogger{}, handleAllocator{w},
